@@ -8,14 +8,30 @@ class Injected(Exception):
     """The fault raised by the doubles."""
 
 
+def _marked(base):
+    return type('Injected' + base.__name__, (base,), {'_ixv_injected': True})
+
+
+# the injected fault comes as several exception classes: user callbacks fail with all sorts of exceptions, and some classes have a
+# meaning of their own for Python's machinery (StopIteration ends iteration protocols, KeyError/TypeError are caught by lookups)
+FAULT_CLASSES = [Injected, _marked(StopIteration), _marked(KeyError), _marked(ZeroDivisionError), _marked(ValueError),
+                 _marked(AttributeError), _marked(IndexError)]
+Injected._ixv_injected = True
+
+
+def is_injected(e):
+    return bool(getattr(e, '_ixv_injected', False))
+
+
 class Faults:
-    """Counts callbacks; raises Injected at the armed ordinal (1-based) within the current window."""
+    """Counts callbacks; raises an injected fault at the armed ordinal (1-based) within the current window."""
 
     def __init__(self):
         self.count = 0
         self.armed = None      # ordinal within the window at which to raise
         self.kinds = []        # kind of each callback in the window
         self.raised = None
+        self.exc_class = Injected
 
     def reset_window(self, armed=None):
         self.count = 0
@@ -28,7 +44,7 @@ class Faults:
         self.kinds.append(kind)
         if self.armed is not None and self.count == self.armed:
             self.armed = None
-            self.raised = Injected(f"injected at callback {self.count} ({kind})")
+            self.raised = self.exc_class(f"injected at callback {self.count} ({kind})")
             raise self.raised
 
 
@@ -141,6 +157,10 @@ class Model:
             if self.faults is not None:
                 self.faults.tick('model')
             out = self.pure(x)
+            if self.spec.get('array_out') and self.mode == 'float':
+                # size-one NumPy arrays as output values (an un-indexed predict()): numeric, but MUTABLE objects
+                import numpy as _np
+                out = {k: _np.array([v]) for k, v in out.items()}
             if self.record:
                 self.calls.append((dict(x), {k: id(v) for k, v in x.items()}, out))
             if self.log is not None:
@@ -184,6 +204,8 @@ class Loss:
         tot = self.zero
         for l in sorted(pred, key=repr):
             p = pred[l]
+            if hasattr(p, 'reshape') and getattr(p, 'size', 0) == 1:
+                p = p.reshape(-1)[0]
             if kind == 'sq':
                 tot = tot + (p - y) * (p - y)
             elif kind == 'abs':
@@ -207,10 +229,10 @@ class Loss:
             self.faults.tick('loss')
         v = self.pure(y_true, y_pred)
         self.calls.append((y_true, dict(y_pred), v))
-        a = abs(float(v))
+        a = abs(_f(v))
         if a > self.maxabs:
             self.maxabs = a
-        ps = [abs(float(p)) for p in y_pred.values()] or [0.0]
+        ps = [abs(_f(p)) for p in y_pred.values()] or [0.0]
         cm = max([abs(x) for x in self.spec.get('c', [0, 1, 1, 1])] + [1])
         m = max(ps) + abs(float(y_true)) + 1.0
         sc = max(len(ps) * cm * m * m * 4, 4.0 * abs(self.spec.get('offset') or 0))
@@ -219,6 +241,13 @@ class Loss:
         if self.log is not None:
             self.log.add('loss', y_true, dict(y_pred), v)
         return v
+
+
+def _f(v):
+    """float() of a number or of a size-one array."""
+    if hasattr(v, 'reshape') and getattr(v, 'size', 0) == 1:
+        return float(v.reshape(-1)[0])
+    return float(v)
 
 
 def recording_imputer(delegate, log=None, faults=None):
